@@ -477,7 +477,7 @@ def run(chk, repo):
             for given in (False, True):
                 w_ = _dwalk(docstring_free(cfn.body), Facts(none=[] if given else ["size"], kinds={"size": {"int"}} if given else {}),
                             "chunks.%s" % cname, strict=False)
-                ss = [x for x in w_.texts() if x.startswith("size = ")]
+                ss = [x for x in w_.texts() if x.startswith("size = ") and x != "size = size"]
                 chk.decide(ss == ([] if given else ["size = chunks.size"]), "C18.%s" % cname, WI("chunks[%s]" % cname),
                            "size %s -> %s" % ("given" if given else "None", "; ".join(ss) or "kept"),
                            why="the chunk size defaults to chunks.size and is kept when given", node=cfn)
